@@ -541,7 +541,7 @@ Proof.
   unfold rcfg_or_assert. mrun.
   unfold checksum_verify; mrun; dpr;
   (destruct (ckt =? CK_NULL) eqn:Eck; cbn [orb]; mrun;
-   [| unfold vfs_checksum; mrun; rewrite Eck; mrun; rewrite Hl, Hck; cbv iota; mrun; rewrite bytes_eqb_refl; mrun]);
+   [| unfold vfs_checksum; mrun; rewrite Eck; mrun; rewrite Hl, Hck; cbv iota; mrun; rewrite bytes_eqb_refl; dpr; rewrite Z.leb_refl; cbn [andb]; mrun]);
   reflexivity.
 Qed.
 
